@@ -192,3 +192,30 @@ PROPS["C07"] = dict(
     rule="cases: every flag assignment of MC_Encode/MC_Lookup with WithRange (all subsets of flags on lists of <= MaxToks tokens over the grid, empty leading lines) x all grid queries; seeded: single lines of up to 70 tokens with random flag density and neighbours on other lines, random models with range flags; distinct = distinct (op, args); non-trivial = the map has at least one range token",
     assumptions=COMMON_ASSUMPTIONS,
 )
+
+def _corrupt_c19(e):
+    c = e["out"]["comps"]
+    if c == [-2]:
+        e["out"]["comps"] = [-1]
+    elif c[-1] > 0:
+        c[-1] = c[-1] % 3 + 1 if c[-1] % 3 + 1 != c[-1] else c[-1] + 1
+    else:
+        c.append(-1)
+    return True
+
+PROPS["C19"] = dict(
+    level="model_checking",
+    level_text="The property is a relation (resolving the result against the base file's directory gives the target; '.' only for the directory itself). The algorithm is a TLA+ state machine (prefix scan, one '..' per remaining level, rest of the target) and TLC checks it satisfies the relation for every pair of paths of 1..MaxLen components over 3 names (every shared-prefix length, shallower/equal/deeper/unrelated targets), absolute and relative, both separators. Every pair is run through the real make_relative_path and TLC evaluates the relation on the returned string split at separators.",
+    level_note="only ordinary components are generated, as in the property; a result component that is not a pool name (e.g. two names glued together) is the distinct value UNKNOWN",
+    technique="TLA+ relation + algorithm machine (RelPath.tla), TLC bounded model checking, trace validation of real make_relative_path results",
+    mc=[
+        dict(module="MC_RelPath", cfg="MC_RelPath_quick.cfg", tiers=("quick",), workers=8),
+        dict(module="MC_RelPath", cfg="MC_RelPath_thorough.cfg", tiers=("thorough",), workers=14, timeout=3400, heap="24g"),
+    ],
+    trace="Trace_C19",
+    drive=dict(quick=dict(n=5000, size=4), thorough=dict(n=200000, size=6)),
+    nontrivial=lambda e: len(e["args"]["base"]) + len(e["args"]["target"]) >= 3,
+    corrupt=_corrupt_c19,
+    rule="cases: all pairs of paths of 1..MaxLen (3 quick / 5 thorough) components over 3 names x {absolute, relative} x {'/', '\\\\'}; seeded random pairs of 1..6 components over pools of 2..5 names incl. names with spaces, dots and non-ASCII; distinct = distinct (base, target, abs, sep); non-trivial = at least 3 components in total",
+    assumptions=COMMON_ASSUMPTIONS,
+)
